@@ -58,7 +58,7 @@ prop('C06',
      'exceptions from non-constant subscripts and .index() in general; recursion depth; wall-clock time; memory.')
 
 prop('C20',
-     [B.r20_a, B.r20_b, B.r20_c, B.r20_d, B.r20_e],
+     [B.r20_a, B.r20_b, B.r20_c, B.r20_d, B.r20_e, B.r20_f],
      'Affine abstract interpretation of utils.Buffer: the cursor field (identified as what `position` returns) is '
      'tracked as an affine form over its entry value, the integer parameters and one iteration counter per loop '
      '(Karr-style invariant for paired increments); methods are summarised with symbolic arguments and the '
@@ -109,7 +109,7 @@ prop('C10',
      'environments (excluded by the precondition of C11).')
 
 prop('C12',
-     [T.r12_a, T.r12_f, S.r12_b, CV.t_agree, S.r12_c, S.r12_d, S.r12_e, L_MATH, T.r09_struct, T.r19_a_precondition],
+     [T.r12_a, T.r12_f, S.r12_b, CV.t_agree, S.r12_c, S.r12_d, S.r12_e, L_MATH, T.r09_struct, T.r19_a_precondition, TR.r04_a, TR.r03_a],
      'Assertions on the tokenizer dispatch table for $ / $$ / backslash-bracket windows, agreement of the kind <-> '
      'class <-> delimiter tables with the tokenizer, def-use rules on the math-region reader and the dispatcher, and '
      'table rules for operators and sizing commands.',
@@ -132,7 +132,7 @@ prop('C09',
 
 
 prop('C07',
-     [RO.r07_a, RO.r07_b, CV.r07_d, RO.r07_e, B.r20_c],
+     [RO.r07_a, RO.r07_b, CV.r07_d, RO.r07_e, B.r20_c, RO.r07_f],
      'Role inference by data flow from the public entry point (which parameters carry the tolerance option), a '
      'threading rule on every resolved call edge, must-flow along the recursion through environments, brace and '
      'bracket arguments, and a non-interference rule: every condition that mentions the option is evaluated for '
@@ -204,7 +204,7 @@ prop('C04',
      'that the root content list concatenates to the whole document (C01/C08); value-level equalities between views.')
 
 prop('C05',
-     [TR.r05_a, TR.r05_e, TR.r05_b, TR.r05_d, TR.r05_c, TR.r15_b],
+     [TR.r05_a, TR.r05_e, TR.r05_b, TR.r05_d, TR.r05_c, TR.r15_b, TR.r15_a],
      'Search-primitive classification and def-use rules on the edit methods: which primitive locates the target, '
      'which index the replacement uses, where the items of a multi-item insertion go.',
      'R05.a the target is located by identity (expressions compare equal by text, so an equality search edits an '
